@@ -624,6 +624,17 @@ func c14GenCases(state string, seed uint64, thorough bool) []c14Case {
 		}
 		add(ks...)
 	}
+	if state == "complete-live" {
+		// more distinct, correctly signed bundles of ONE kind than the board has slots: nobody drains them any more,
+		// and every one of them must still be answered (each kind's own channel is filled separately)
+		for _, k := range []string{"broadcast-insider:justification-share-index-out-of-range", "broadcast-insider:response-complaints-about-everyone", "broadcast-insider:deal-garbage-shares-for-all"} {
+			var ks []string
+			for j := 0; j < 14; j++ {
+				ks = append(ks, k)
+			}
+			add(ks...)
+		}
+	}
 	if thorough && state != "complete-live" {
 		for _, wk := range wedgy {
 			n := 2 + rng.Intn(4)
